@@ -15,6 +15,7 @@ from .. import circ, dom
 from ..core import Leg
 
 PROP = 'C09'
+SUB9 = (0, 4, 7, 8, 11, 12, 13, 14, 15)     # sub-alphabet of the length-5 leg (thorough)
 RULE = ('all gate programs of length <= k over the fixed alphabet (H, S, CNOT both orientations incl. non-adjacent, '
         'generator gates on 1/2/3 qubits incl. a negative generator, clifford_rotation_gate from a full-width generator '
         'with an identity gap, forward-map gate on the non-contiguous qubits (0,2), backward-map-only gates) x every '
@@ -72,6 +73,16 @@ def legs(tier, for_replay=False):
         Leg('programs_N2', fn_programs, p2, chunk=24 if quick else 48, src_states=len(p2), timeout=3000,
             bound='N=2: all %d programs of length <= %d over 12 letters x all configurations x (64-element group list + 5 states)' % (len(p2), k2)),
     ]
+    if not quick:
+        import itertools
+        p5 = [[3, list(p)] for p in itertools.product(SUB9, repeat=5)]
+        out.append(Leg('programs_N3_len5', fn_programs, p5, chunk=48, src_states=len(p5), timeout=3000,
+                       bound='N=3: all %d programs of length exactly 5 over the 9-letter sub-alphabet %s (H0, S1, CNOT(2,1), CNOT(0,2), '
+                             'gen(0,1) -XZ, gen(0,1,2) YXZ, clifford_rotation_gate(XIY), fmap(0,2), bmap(1,2))' % (len(p5), SUB9)))
+    p4 = circ.programs('py', 4, 2 if quick else 3)
+    out.append(Leg('programs_N4', fn_programs, p4, chunk=4 if quick else 16, src_states=len(p4), timeout=3000,
+                   bound='N=4: all %d programs of length <= %d over 10 letters (two 2-qubit gates on interleaved wires (0,2),(1,3) can share a layer; '
+                         '4-qubit global generator) x all configurations x (1024-element group list + 7 states)' % (len(p4), 2 if quick else 3)))
     gs = [it for N in (1, 2, 3) for it in circ.gate_specs('py', N, tier)]
     out.append(Leg('gates', fn_gates, gs, chunk=16 if quick else 64, timeout=3000,
                    bound='N<=3: named gates and C(k) on every wire, generator gates (all strings, both signs) and map gates '
